@@ -34,6 +34,12 @@ Check == /\ UNCHANGED <<file, writes>> /\ lastExit' = (IF file = "clean" THEN 0 
 Diff == /\ UNCHANGED <<file, writes>> /\ lastExit' \in {0, 1}     \* the exit status of --diff is not fixed by the documentation
 MNext == Fmt \/ Check \/ Diff
 MSpec == MInit /\ [][MNext]_mvars
+\* ---- the same modes on a DIRECTORY (format_files walks every .incn file below the path): the product machine.
+\* dstate: a function file -> "dirty" | "clean". `fmt DIR` rewrites exactly the dirty files; `--check DIR` is read-only and
+\* exits 0 iff every file is clean (one dirty file anywhere in the walk is enough for 1).
+DirCheckExit(dstate) == IF \E f \in DOMAIN dstate : dstate[f] = "dirty" THEN 1 ELSE 0
+DirAfterFmt(dstate) == [f \in DOMAIN dstate |-> "clean"]
+DirWritten(dstate) == {f \in DOMAIN dstate : dstate[f] = "dirty"}
 ReadOnlyModes == [][(Check \/ Diff) => (file' = file /\ writes' = writes)]_mvars
 CheckAfterFmt == [][Fmt => (file' = "clean")]_mvars
 =============================================================================
